@@ -545,14 +545,18 @@ func init() {
 						return false
 					}
 					bi, ok := cc.Call.Value.(*ssa.Builtin)
-					return ok && bi.Name() == "len" && prog.LoadedField(cc.Call.Args[0]) == packChanges
+					if !ok || bi.Name() != "len" {
+						return false
+					}
+					// the request's list itself, or a selection built from it (the changes this request pushed)
+					return prog.LoadedField(cc.Call.Args[0]) == packChanges || prog.DependsOn(cc.Call.Args[0], func(w ssa.Value) bool { return prog.LoadedField(w) == packChanges })
 				}}
 				var vias []ssa.Instruction
 				for _, a := range callsToIn(host, apply) {
 					vias = append(vias, a)
 				}
 				x.guardedOrVia(hk+" own-changes-applied-whenever-the-request-has-changes", c, []Cmp{isFalse(vpCall(hasCh)), {L: lenCh, R: vpConst(0), Want: LE}}, vias,
-					"the snapshot includes the request's changes whenever it has any", "a request that carries changes (e.g. presence only) can get a snapshot that does not include them: the sender's own presence differs from what peers see")
+					"the snapshot includes the request's (newly pushed) changes whenever it has any", "a request that carries changes (e.g. presence only) can get a snapshot that does not include them: the sender's own presence differs from what peers see")
 			}
 		}})
 }
